@@ -345,4 +345,93 @@ theorem VC.intersect_atQ {LoI HiI : List Version} (hnp : NoPoint LoI HiI) (p : V
     · obtain ⟨c, h1, h2, h3⟩ := VC.intersect_at hnp p hp a b ha hb
       exact ⟨c, h1, Or.inr h2, h3⟩
 
+/-! ### `union` of two constraints over range members, at the probe -/
+
+/-- `is_strictly_lower` on the data it reads -/
+def slB (A : Option Version) (ia : Bool) (m : Option Version) (im : Bool) : Bool :=
+  match A, m with
+  | some x, some y => if Version.lt x y then true else if Version.gt x y then false else !(ia && im)
+  | _, _ => false
+
+def hiB (A B : Option Version) (ia ib : Bool) : Bool :=
+  match A, B with
+  | none, o => o.isSome
+  | some _, none => false
+  | some x, some y => if Version.lt x y then false else if Version.gt x y then true else ia && !ib
+
+def loB (m n : Option Version) (im jn : Bool) : Bool :=
+  match m, n with
+  | none, o => o.isSome
+  | some _, none => false
+  | some x, some y => if Version.lt x y then true else if Version.gt x y then false else im && !jn
+
+theorem slB_hull (A B m n : Option Version) (ia ib im jn : Bool) (h1 : slB A ia m im = false)
+    (h2 : slB B ib n jn = false) :
+    slB (if hiB A B ia ib then A else B) (if hiB A B ia ib then ia else ib)
+      (if loB m n im jn then m else n) (if loB m n im jn then im else jn) = false := by
+  unfold slB hiB loB at *
+  cases A <;> cases B <;> cases m <;> cases n <;> cases ia <;> cases ib <;> cases im <;> cases jn <;>
+    simp [lt_iff, gt_iff] at * <;> grind
+
+/-- the hull of two inhabited ranges is inhabited -/
+theorem VRange.hull_NE' (a b : VRange) (ha : a.WF) (hb : b.WF) (hna : a.NE) (hnb : b.NE) : (VRange.hull a b).NE := by
+  obtain ⟨t1, t2⟩ := VRange.hull_top a b ha hb
+  have e : ∀ x y : VRange, x.isStrictlyLower y = slB x.allowedMax x.imax y.min y.imin := fun _ _ => rfl
+  have eh : ∀ x y : VRange, x.allowsHigher y = hiB x.allowedMax y.allowedMax x.imax y.imax := fun _ _ => rfl
+  have el : ∀ x y : VRange, x.allowsLower y = loB x.min y.min x.imin y.imin := fun _ _ => rfl
+  unfold VRange.NE at *
+  rw [e] at hna hnb ⊢
+  rw [t1, t2, eh]
+  have hm : (VRange.hull a b).min = (if loB a.min b.min a.imin b.imin then a.min else b.min) := by
+    simp [VRange.hull, el]
+  have hi : (VRange.hull a b).imin = (if loB a.min b.min a.imin b.imin then a.imin else b.imin) := by
+    simp [VRange.hull, el]
+  rw [hm, hi]
+  exact slB_hull _ _ _ _ _ _ _ _ hna hnb
+
+theorem VC.unionWith_at {LoI HiI : List Version} (p : Version) (hp : p.wf = true) (a b : VC)
+    (ha : a.PInv LoI HiI p) (hb : b.PInv LoI HiI p) :
+    ∃ c, VC.unionWith a b = .ok c ∧ c.PInv LoI HiI p ∧ c.allowsPlain p = (a.allowsPlain p || b.allowsPlain p) := by
+  -- `VersionUnion.of` on the two operands
+  have viaOf : ∃ c, VC.unionOf [a, b] = .ok c ∧ c.PInv LoI HiI p ∧
+      c.allowsPlain p = (a.allowsPlain p || b.allowsPlain p) := by
+    obtain ⟨res, h1, h2, h3, h4⟩ := unionOfFlat_at p hp ([a, b].flatMap VC.flatten) (by
+      intro x hx
+      simp only [List.flatMap_cons, List.flatMap_nil, List.append_nil, List.mem_append] at hx
+      rcases hx with hx | hx
+      · exact ha.2 x hx
+      · exact hb.2 x hx)
+    refine ⟨res, h1, ⟨h2, h3⟩, ?_⟩
+    rw [h4]
+    simp [anyAllows, VC.allowsPlain, List.any_append]
+  cases a with
+  | empty => exact ⟨b, rfl, hb, by simp [VC.allowsPlain, VC.flatten]⟩
+  | union rs => exact viaOf
+  | single x =>
+    obtain ⟨hx1, r, rfl, hr⟩ := ha.2 x (by simp [VC.flatten])
+    cases b with
+    | empty => exact viaOf
+    | union ts => exact viaOf
+    | single y =>
+      obtain ⟨hy1, s, rfl, hs⟩ := hb.2 y (by simp [VC.flatten])
+      show ∃ c, RC.union (.rng r) (.rng s) = .ok c ∧ _
+      by_cases hcond : (!(VRange.edgesTouch r s) && (s.isStrictlyLower r || r.isStrictlyLower s)) = true
+      · have hu := VRange.rcUnionSingle_rng_none r s hcond
+        have e : RC.union (.rng r) (.rng s) = unionOfFlat [.rng r, .rng s] := by
+          simp [RC.union, hu, bind, Except.bind]
+        rw [e]
+        obtain ⟨c, h1, h2, h3⟩ := viaOf
+        refine ⟨c, ?_, h2, h3⟩
+        simpa [VC.unionOf, VC.flatten] using h1
+      · simp only [Bool.not_eq_true] at hcond
+        have hu := VRange.rcUnionSingle_rng_some r s hcond
+        obtain ⟨hups, hex⟩ := VRange.hull_at r s p hp hr hs hcond
+        have hne := VRange.hull_NE' r s hr.1 hs.1 hx1.2.2.1 hy1.2.2.1
+        refine ⟨.single (.rng (VRange.hull r s)), by simp [RC.union, hu, bind, Except.bind, pure, Except.pure], ?_, ?_⟩
+        · refine ⟨⟨hups.1, hne⟩, ?_⟩
+          intro z hz
+          simp [VC.flatten] at hz; subst hz
+          exact ⟨⟨hups.1, hups.2.1, hne, ⟨_, rfl⟩⟩, _, rfl, hups⟩
+        · simp [VC.allowsPlain, VC.flatten, RC.allows, hex]
+
 end Poetry
